@@ -330,6 +330,14 @@ func main() {
 				ev.coverReplay(rep, tr, rr)
 				if !rr.Completed {
 					lines = append(lines, fmt.Sprintf("COVER-REPLAY-DIVERGED harness=%s %s :: %s", rep.Harness, tr.Violation, rr.Detail))
+					// keep the witness for diagnosis (a diverged witness is a defect of the replay machinery or of the model)
+					dir := filepath.Join(verifRoot, "replays", *prop)
+					os.MkdirAll(dir, 0o755)
+					path := filepath.Join(dir, fmt.Sprintf("%s_cover%d_diverged.json", rep.Harness, ci))
+					saved := savedReplay{Property: *prop, Harness: rep.Harness, Fix: rep.Fix, K: rep.K, U: rep.U, Trace: tr, Native: rr.Detail,
+						ReplayCmd: fmt.Sprintf("%s/bin/check -replay %s", verifRoot, path)}
+					b, _ := json.MarshalIndent(saved, "", " ")
+					os.WriteFile(path, b, 0o644)
 				}
 			}
 		}
